@@ -622,19 +622,77 @@ class _TruthyLen(ast.NodeTransformer):
         return e
 
 
+def _single_pure_defs(f):
+    """locals of f assigned exactly once, at the top level of the function (not under a branch or loop), to an
+    expression without calls other than len(): they can be replaced by their definition in a path condition"""
+    counts = {}
+    for n in ast.walk(f.node):
+        if isinstance(n, ast.Name) and isinstance(n.ctx, (ast.Store, ast.Del)):
+            counts[n.id] = counts.get(n.id, 0) + 1
+    out = {}
+    for s in f.node.body:
+        if isinstance(s, ast.Assign) and len(s.targets) == 1 and isinstance(s.targets[0], ast.Name) and counts.get(s.targets[0].id) == 1 \
+                and s.targets[0].id not in f.params:
+            calls = [c for c in ast.walk(s.value) if isinstance(c, ast.Call)]
+            if all(isinstance(c.func, ast.Name) and c.func.id == 'len' for c in calls):
+                out[s.targets[0].id] = s.value
+    return out
+
+
+class _SubstNames(ast.NodeTransformer):
+    def __init__(self, defs):
+        self.defs = defs
+
+    def visit_Name(self, n):
+        if isinstance(n.ctx, ast.Load) and n.id in self.defs:
+            import copy
+            return self.visit(copy.deepcopy(self.defs[n.id]))
+        return n
+
+
 def implied_at(repo, f, node, goal_text, truthy_len=None):
-    """True / False / None: does the path condition at `node` imply the goal formula (constants literal)?"""
+    """True / False / None: does the path condition at `node` imply the goal formula (constants literal)?
+
+    True is a proof (the condition is only ever weakened by what is not modelled).  False claims a counter-example, so
+    it is given only when the condition is modelled completely as far as the goal's variables go: once-assigned pure
+    locals (`size = len(self)`) are replaced by their definitions, and if any test on the path still mentions another
+    local variable, or uses the goal's sequence through anything but len(), a constant index or its truth value (a
+    predicate method, say, which may well imply a length), the answer is None."""
     from .rules import equiv, _Folder, _copy
     pcs = path_condition(node)
+    defs = _single_pure_defs(f)
+    goal_names = {n.id for n in ast.walk(ast.parse(goal_text, mode='eval')) if isinstance(n, ast.Name)} - {'len'}
+    locals_ = {n.id for n in ast.walk(f.node) if isinstance(n, ast.Name) and isinstance(n.ctx, (ast.Store, ast.Del))} - set(f.params)
+    for a in ast.walk(f.node):
+        if isinstance(a, ast.arg):
+            locals_.discard(a.arg)
     parts = []
+    opaque = False
     for t, pol in pcs:
         t = _copy(t)
+        if defs:
+            t = ast.fix_missing_locations(_SubstNames(defs).visit(t))
         if truthy_len:
             t = ast.fix_missing_locations(_TruthyLen(truthy_len)._b(t))
+        for n in ast.walk(t):
+            if isinstance(n, ast.Name) and n.id in locals_:
+                opaque = True
+            if isinstance(n, ast.Call):
+                fn = n.func
+                if isinstance(fn, ast.Name) and fn.id == 'len':
+                    continue
+                inside = {x.id for x in ast.walk(n) if isinstance(x, ast.Name)}
+                if inside & goal_names:
+                    opaque = True
+            if isinstance(n, ast.Subscript) and isinstance(n.value, ast.Name) and n.value.id in goal_names and not isinstance(n.slice, (ast.Constant, ast.Slice, ast.UnaryOp)):
+                opaque = True
         ft = ast.unparse(_Folder(repo, f.module, f.cls, None).visit(_copy(t)))
         parts.append('(%s)' % ft if pol else 'not (%s)' % ft)
     pc = ' and '.join(parts) if parts else 'True'
-    return equiv('not (%s) or (%s)' % (pc, goal_text), 'True')
+    v = equiv('not (%s) or (%s)' % (pc, goal_text), 'True')
+    if v is False and opaque:
+        return None
+    return v
 
 
 def contract_class(repo, esc, ctor_ranges=True):
